@@ -349,28 +349,68 @@ _UNSET = object()
 _gen_cache = {}
 
 
-def generated_record_classes():
+def build_generated_record_classes():
     from minecraft.networking.types import MutableRecord
+    G1 = type('G1', (MutableRecord,), {'__slots__': ('a', 'b')})
+    G2 = type('G2', (G1,), {'__slots__': ('c',)})
+    G3 = type('G3', (G2,), {'__slots__': 'solo'})
+    G0 = type('G0', (MutableRecord,), {'__slots__': ()})
+    G4 = type('G4', (G1,), {'__slots__': ('c',)})
+    return [G0, G1, G2, G3, G4]
+
+
+def generated_record_classes():
     if not _gen_cache:
-        G1 = type('G1', (MutableRecord,), {'__slots__': ('a', 'b')})
-        G2 = type('G2', (G1,), {'__slots__': ('c',)})
-        G3 = type('G3', (G2,), {'__slots__': 'solo'})
-        G0 = type('G0', (MutableRecord,), {'__slots__': ()})
-        G4 = type('G4', (G1,), {'__slots__': ('c',)})
-        _gen_cache['c'] = [G0, G1, G2, G3, G4]
+        _gen_cache['c'] = build_generated_record_classes()
     return _gen_cache['c']
+
+
+# Which record classes this process has already used, in order of first use.
+# A record class may carry per-class state (a slot cache, say) whose content
+# depends on which related class was used first; to keep every case a pure
+# function of its own content the order of first use so far is stored in
+# the case ('warm') and re-established first when the case is replayed in a
+# fresh process.
+_touched = []
+
+
+def _touch(cls):
+    try:
+        a = make_record(cls, [0] * len(slots_of(cls)))
+        a == a, hash(a), list(a), repr(a)
+    except Exception:
+        pass
 
 
 def records_case(ctx, case):
     """case {cls: index into all classes, a: [values], b: [values]}"""
-    classes = library_record_classes() + generated_record_classes()
-    ca = classes[case['cls_a'] % len(classes)]
-    cb_ = classes[case['cls_b'] % len(classes)] if case.get('cls_b') \
-        is not None else ca
+    if case.get('fresh'):
+        # a hierarchy built for this case alone: first-use order is entirely
+        # inside the case
+        classes, touched = build_generated_record_classes(), []
+    else:
+        classes = library_record_classes() + generated_record_classes()
+        touched = _touched
+    if case.get('warm') is None:
+        case['warm'] = list(touched)
+    for i in case['warm']:
+        i %= len(classes)
+        if i not in touched:
+            touched.append(i)
+            _touch(classes[i])
+    ia = case['cls_a'] % len(classes)
+    ib = case['cls_b'] % len(classes) if case.get('cls_b') is not None \
+        else ia
+    ca, cb_ = classes[ia], classes[ib]
     import inspect
     if inspect.isabstract(ca) or inspect.isabstract(cb_):
         return
     ctx.ev()
+    for i in (ia, ib):
+        if i not in touched:
+            touched.append(i)
+    if case.get('fresh'):
+        ctx.label('records_fresh_hierarchy')
     sa, sb = slots_of(ca), slots_of(cb_)
     va = (list(case['a']) + [0] * 20)[:len(sa)]
     vb = (list(case['b']) + [0] * 20)[:len(sb)]
@@ -785,6 +825,16 @@ def t_laws(ctx, n):
         'b': st.lists(val, min_size=8, max_size=8)}).map(
             lambda c: dict(c, b=c['a']) if c['a'][0] in (1, 'a') else c)
     hyp(ctx, 'records', rec, lambda c, case: records_case(c, case), n)
+    frec = st.fixed_dictionaries({
+        'fresh': st.just(True),
+        'warm': st.lists(st.integers(0, 4), max_size=5, unique=True),
+        'cls_a': st.integers(0, 4),
+        'cls_b': st.one_of(st.none(), st.integers(0, 4)),
+        'a': st.lists(val, min_size=4, max_size=4),
+        'b': st.lists(val, min_size=4, max_size=4)}).map(
+            lambda c: dict(c, b=c['a']) if c['a'][0] in (1, 'a') else c)
+    hyp(ctx, 'fresh_records', frec, lambda c, case: records_case(c, case),
+        n)
     num = st.one_of(st.integers(-10 ** 6, 10 ** 6), st.floats(-1e6, 1e6),
                     st.integers(-3, 3))
     scal = st.one_of(st.integers(-9, 9), st.floats(-9, 9),
